@@ -356,6 +356,46 @@ def _show(line):
     return json.dumps(d, sort_keys=True)
 
 
+def _newer_kept_situation(t, v):
+    """The semantic situation of a C17.newerKept failure (a delete request of an OLDER
+    container removes a node to which a NEWER container of the instance is entitled).
+
+    'olderAfterNewer' (the recorded known finding): on that service incarnation a create
+    request of the older container was (re)evaluated AFTER the newer container had
+    registered the node -- newest-first evaluation order (glob order after a service
+    restart, watch-callback order) -- so the older one took over what its session already
+    held for the newer one.  Derived from the request-level lines (begin of create
+    requests, the services' registration maps) only, independent of the order and number
+    of ZooKeeper calls inside a request.
+    'other': anything else (older evaluated first and the newer one's take-over not
+    book-kept, bookkeeping lost, ...): a different defect, reported."""
+    lines = t['lines']
+    i = v['i']
+    line = lines[i]
+    h, older = line.get('h'), line.get('rc')
+    claims = v.get('nk') or []
+    if not claims or h is None:
+        return 'other'
+    start = 0
+    for j in range(i - 1, 0, -1):
+        if lines[j]['ev'] in ('restart', 'expire', 'crash') and lines[j].get('h') == h:
+            start = j
+            break
+
+    def create_begins(c):
+        return [j for j in range(start, i) if lines[j]['ev'] == 'begin' and lines[j].get('h') == h and
+                lines[j].get('k') == 'create' and lines[j].get('c') == c]
+    older_begins = create_begins(older)
+    for path, newer in claims:
+        reg = next((j for j in range(start, i)
+                    if lines[j]['post']['pres'].get(h, {}).get(path) == newer), None)
+        if reg is None:          # its registration never reached the service's map
+            reg = next(iter(create_begins(newer)), None)
+        if reg is None or not any(j > reg for j in older_begins):
+            return 'other'
+    return 'olderAfterNewer'
+
+
 def judge(ctx, traces, verdicts, extra=None):
     by_tid = {t['tid']: t for t in traces}
     violations = []
@@ -423,13 +463,11 @@ def judge(ctx, traces, verdicts, extra=None):
                 if (t['tid'], f) not in seen_bad:
                     seen_bad.add((t['tid'], f))
                     violating['%s %s' % (f, t['src'].split(':')[0])] += 1
-                # the recorded finding is "the unchanged code's own, modelled behaviour
-                # (Defects = {olderSteals}) lets an older container take over": a
-                # newerKept violation in a trace the as-is model does NOT explain is a
-                # different defect and is reported
+                # the recorded finding is identified by WHAT fails, not by whether the
+                # step-exact model explains the trace (see _newer_kept_situation)
                 sig = f
                 if f == PROP + '.newerKept':
-                    sig = f + (':drift' if t['tid'] in drifting else ':asis')
+                    sig = f + ':' + _newer_kept_situation(t, v)
                 violations.append(dict(
                     clause=f, signature=sig,
                     what='at line %d of %s (%s): %s' % (v['i'], t['tid'], t['src'], _show(line)),
@@ -540,6 +578,16 @@ def _ext_designed():
                 items.append((name, 'xfix', base + [('KillBegin', [h]), ('ARun', [])]))
                 for inst in (a, b):
                     items.append((name, 'xfix', base + [('UnregBegin', [h, inst]), ('ARun', [])]))
+    # the host's nodes are killed, the instance registers on the other host, then the old
+    # container is cleaned up: its recorded paths now belong to the other session
+    for name in ('a2', 'k2', 'px'):
+        scn = pd.SCENARIOS[name]
+        h0, h1 = scn['hosts'][:2]
+        same = [c for c in scn['conts'] if scn['inst'][c] == scn['inst'][scn['conts'][0]]][:2]
+        for x, y in ((h0, h1), (h1, h0)):
+            items.append((name, 'xfix', [('Submit', [x, same[0]]), ('Run', [x]), ('KillBegin', [x]),
+                                         ('ARun', []), ('Submit', [y, same[1]]), ('Run', [y]),
+                                         ('Finish', [x, same[0]]), ('Run', [x])]))
     return items
 
 
@@ -612,6 +660,40 @@ def _unsched_schedules(ctx, runs):
     return items
 
 
+def _designed():
+    """Hand-written schedules inside the statement's quantifier that random choice rarely
+    reaches.  Three successive containers of one instance: c1 on host B is being cleaned
+    up (its running / endpoint nodes are gone, its last node still there), c2 on host A
+    registers the free nodes and waits for the last one, c3 on host A takes c2's nodes
+    over and waits too; then c2 is cleaned up -- which must leave c3's nodes alone."""
+    items = []
+    scn = pd.SCENARIOS['a3']
+    c1, c2, c3 = scn['conts'][:3]
+    for a_host, b_host in (scn['hosts'][:2], scn['hosts'][1::-1]):
+        for ncalls in (3, 6):
+            items.append(('a3', 'dfix', [
+                ('Submit', [b_host, c1]), ('Run', [b_host]),
+                ('Submit', [a_host, c2]), ('Run', [a_host]),
+                ('Finish', [b_host, c1]), ('Begin', [b_host])] + [('Call', [b_host])] * ncalls + [
+                ('Run', [a_host]),
+                ('Submit', [a_host, c3]), ('Run', [a_host]),
+                ('Finish', [a_host, c2]), ('Run', [a_host]),
+                ('Run', [a_host])]))
+    # the instance comes back with another identity, held by another instance on the other
+    # host: the newer container takes the running / endpoint nodes over, waits for the
+    # identity; the old container's clean-up must leave what the newer one took over
+    scn = pd.SCENARIOS['i3']
+    c1, c2, c3 = scn['conts'][:3]
+    for a_host, b_host in (scn['hosts'][:2], scn['hosts'][1::-1]):
+        items.append(('i3', 'dfix', [
+            ('Submit', [b_host, c3]), ('Run', [b_host]),
+            ('Submit', [a_host, c1]), ('Run', [a_host]),
+            ('Submit', [a_host, c2]), ('Run', [a_host]),
+            ('Finish', [a_host, c1]), ('Run', [a_host]),
+            ('Finish', [b_host, c3]), ('Run', [b_host]), ('Run', [a_host])]))
+    return items
+
+
 def _ext_schedules(ctx, obs):
     items, info = _ext_designed(), {}
     for (key, inv, what), res in obs:
@@ -676,7 +758,7 @@ def run(ctx):
             'extension: %d schedules with helper runs'
             % (len(items), len(items) - len(sim) - len(cover) - len(rnd), len(sim), len(cover), len(rnd),
                len(xitems)))
-    items = items + xitems                       # extension traces last: the others keep their ids
+    items = items + xitems + _designed()         # extension / designed traces last: the others keep their ids
     traces = record(items)
     ctx.log('recorded %d traces, %d lines' % (len(traces), sum(len(t['lines']) for t in traces)))
     verdicts, stats = validate(traces, timeout=300 if ctx.quick else 1800)
